@@ -58,7 +58,7 @@ def layers_of_expr(e):
     return [Layer('source', norm(e), e)]
 
 
-def layers_of_var(fnode, var):
+def layers_of_var(fnode, var, _depth=0):
     """Ordered layers of the dict held in ``var`` (a Name id or an attribute text like 'self.resources')."""
     out = []
     for st in stmts_of(fnode):
@@ -88,6 +88,22 @@ def layers_of_var(fnode, var):
                         out.append(Layer('literal', '{%s}' % t.slice.value, st, [t.slice.value], {t.slice.value: st.value}))
                     else:
                         out.append(Layer('source', '[%s]' % norm(t.slice), st))
+    # a source that is itself a local built once in this function (``builtins = {...}; d = dict(builtins)``) is
+    # replaced by that local's own layers
+    if _depth < 3:
+        expanded = []
+        for l in out:
+            if l.kind == 'source' and isinstance(l.node, ast.Name) and l.node.id != var:
+                asg = [st for st in stmts_of(fnode) if isinstance(st, ast.Assign) and any(norm(t) == l.node.id for t in st.targets)]
+                if len(asg) == 1 and isinstance(asg[0].value, (ast.Dict, ast.Call)) and \
+                        (isinstance(asg[0].value, ast.Dict) or norm(asg[0].value.func) == 'dict'):
+                    try:
+                        expanded.extend(layers_of_var(fnode, l.node.id, _depth + 1))
+                        continue
+                    except AnalysisError:
+                        pass
+            expanded.append(l)
+        out = expanded
     return out
 
 
